@@ -104,6 +104,7 @@ const (
 	ECallGetCache  // a lookup call on the cache store was made
 	ECallStarter   // a call whose closure spawns a goroutine was made (flusher starter)
 	ECallWriteObj  // a call of the object-write family (closure writes an object file) was made
+	ECallInit      // the object is known to carry an identifier: Initialize was invoked on it, or `UUID() != ""` was established on this path
 	EIsCorruptedQ  // errors.Is(err, ErrIndexCorrupted) was evaluated
 	ECloseFile     // (*os.File).Close
 	ECloseIface    // Close invoked on an io.Closer / io.WriteCloser value
@@ -126,7 +127,7 @@ var effNames = [...]string{
 	"ok(Validate)", "ok(UNIQ.check)", "ok(ACCEPT)", "ok(SCHEMA.get)", "ok(OBJ.read)", "ok(COMPAT)", "ok(STRUCT)", "ok(SERIALISE)", "ok(UNIQ.check live)", "ok(UNIQ.check temp)", "ok(ACCEPT temp)",
 	"ERR(ConstraintUnique)", "ERR(InvalidObject)", "ERR(IndexCorrupted)", "ERR(StructureChanged)", "ERR(FieldDescModif)", "ERR(ExtensionMismatch)", "ERR(WrongObjectType)",
 	"ERR(UnkownSearchOperator)", "ERR(Casting)", "ERR(UnkownField)", "ERR(UnknownKeyType)", "ERR(NoObjectFound)", "ERR(FieldNotIndexed)", "ERR(other)",
-	"CANON", "DIRTY", "CALL.del(cache)", "CALL.del(pending)", "CALL.unindex(live)", "CALL.flush(pending)", "CALL.commit", "CALL.get(cache)", "CALL.starter", "CALL.writeObject", "errors.Is(corrupted)?", "CLOSE(file)", "CLOSE(iface)", "GZIP.writer", "UNRENAMED", "ACCESS", "LOCKOP",
+	"CANON", "DIRTY", "CALL.del(cache)", "CALL.del(pending)", "CALL.unindex(live)", "CALL.flush(pending)", "CALL.commit", "CALL.get(cache)", "CALL.starter", "CALL.writeObject", "ID.assured", "errors.Is(corrupted)?", "CLOSE(file)", "CLOSE(iface)", "GZIP.writer", "UNRENAMED", "ACCESS", "LOCKOP",
 }
 
 func (e Eff) String() string {
@@ -637,11 +638,102 @@ func sentinelIsSource(load *ssa.UnOp) bool {
 			return true
 		case *ssa.DebugRef:
 			continue
+		case *ssa.MakeInterface, *ssa.ChangeInterface:
+			// an operand of fmt.Errorf makes an error of the sentinel's class only under the verb %w
+			if verb, ok := errorfVerb(u.(ssa.Value)); ok && verb != 'w' {
+				continue
+			}
+			return true
 		default:
 			return true
 		}
 	}
 	return false
+}
+
+// errorfVerb: when the interface value is stored (only) as the k-th variadic operand of a fmt.Errorf call with a
+// constant format, the verb that consumes it.
+func errorfVerb(mi ssa.Value) (byte, bool) {
+	refs := mi.Referrers()
+	if refs == nil {
+		return 0, false
+	}
+	var verb byte
+	found := false
+	for _, r := range *refs {
+		switch u := r.(type) {
+		case *ssa.DebugRef:
+			continue
+		case *ssa.Store:
+			ia, ok := u.Addr.(*ssa.IndexAddr)
+			if !ok || u.Val != mi {
+				return 0, false
+			}
+			k, ok := ia.Index.(*ssa.Const)
+			if !ok || k.Value == nil {
+				return 0, false
+			}
+			idx, _ := constant.Int64Val(k.Value)
+			arr, ok := ia.X.(*ssa.Alloc)
+			if !ok || arr.Referrers() == nil {
+				return 0, false
+			}
+			var call *ssa.Call
+			for _, ar := range *arr.Referrers() {
+				if sl, ok := ar.(*ssa.Slice); ok && sl.Referrers() != nil {
+					for _, sr := range *sl.Referrers() {
+						if c, ok := sr.(*ssa.Call); ok && classifyExternal(c.Call.StaticCallee()) == xErrorf && c.Call.StaticCallee().Name() == "Errorf" {
+							call = c
+						}
+					}
+				}
+			}
+			if call == nil || len(call.Call.Args) < 1 {
+				return 0, false
+			}
+			format, ok := constString(call.Call.Args[0])
+			if !ok {
+				return 0, false
+			}
+			v, ok := nthVerb(format, int(idx))
+			if !ok {
+				return 0, false
+			}
+			verb, found = v, true
+		default:
+			return 0, false
+		}
+	}
+	return verb, found
+}
+
+// nthVerb returns the verb letter of the n-th (0-based) operand-consuming directive of a Printf format
+// (explicit argument indexes and '*' widths make it undecided).
+func nthVerb(format string, n int) (byte, bool) {
+	k := 0
+	for i := 0; i < len(format); i++ {
+		if format[i] != '%' {
+			continue
+		}
+		i++
+		for i < len(format) && strings.IndexByte("+-# 0123456789.", format[i]) >= 0 {
+			i++
+		}
+		if i >= len(format) {
+			return 0, false
+		}
+		if format[i] == '%' {
+			continue
+		}
+		if format[i] == '[' || format[i] == '*' {
+			return 0, false
+		}
+		if k == n {
+			return format[i], true
+		}
+		k++
+	}
+	return 0, false
 }
 
 func openFlagWrites(v ssa.Value) bool {
@@ -728,3 +820,6 @@ func sortedKeys(m map[string]bool) []string {
 	sort.Strings(k)
 	return k
 }
+
+// okBitsEngine: the success facts (verdicts of checks) whose freshness the engine tracks across handle-lock releases.
+var okBitsEngine = effs(EOkValid, EOkUniq, EOkUniqLive, EOkUniqTemp, EOkAccept, EOkAcceptTemp)
